@@ -7,6 +7,7 @@ import JanetModel.Lib.SpecLaws
 import JanetModel.Lib.BufMemProofs
 import JanetModel.Lib.KmpProofs
 import JanetModel.Lib.SortProofs
+import JanetModel.Lib.RangeProofs
 namespace JanetModel.Props.C17
 open JanetModel.Lib JanetModel.Gen.Lib
 
@@ -138,6 +139,29 @@ theorem insert_remove {α : Type} (a xs : List α) (i : Nat) (hi : i ≤ a.lengt
     (h32 : (a.length : Int) + xs.length ≤ int32Max) :
     (arrayInsert a i xs).bind (fun r => arrayRemove r i xs.length) = some a :=
   arrayInsert_remove a xs i hi h32
+
+/-! ### `range` (corelib.c janet_core_range) -/
+
+/-- ★ `range_spec`: the mirror of the C code of the current tree over exact numbers (integers, and dyadic fractions scaled
+    to integers) NEVER aborts (`rangeC … = some l`) — the Gen facts say the aborting assertion is gone and the correcting
+    loops are there — and `l` has `max 0 ⌈(stop-start)/step⌉` elements (none for step 0), element `i` is `start + i*step`,
+    every element lies in `[start, stop)` (resp. `(stop, start]` for a negative step) and the next one would not.
+    `Range.rangeCOld_aborts`: the code of the pinned tree aborted on `(range 1 0 0)`. -/
+theorem range_spec (start stop step : Int) :
+    ∃ l, Range.rangeC start stop step = some l ∧
+      (step > 0 → (l.length : Int) = (if Range.ceilDiv (stop - start) step > 0 then Range.ceilDiv (stop - start) step else 0)) ∧
+      (step < 0 → (l.length : Int) = (if Range.ceilDiv (stop - start) step > 0 then Range.ceilDiv (stop - start) step else 0)) ∧
+      (step = 0 → l = []) ∧
+      (∀ i (h : i < l.length), l[i] = start + (i : Int) * step) ∧
+      (step > 0 → (∀ x ∈ l, start ≤ x ∧ x < stop) ∧ start + (l.length : Int) * step ≥ stop) ∧
+      (step < 0 → (∀ x ∈ l, stop < x ∧ x ≤ start) ∧ start + (l.length : Int) * step ≤ stop) :=
+  Range.rangeC_spec start stop step
+
+theorem range_ceilDiv_spec (x y : Int) (hy : 0 < y) :
+    Range.ceilDiv x y * y - y < x ∧ x ≤ Range.ceilDiv x y * y := Range.ceilDiv_pos_spec x y hy
+
+example : Range.rangeC 0 10 3 = some [0, 3, 6, 9] ∧ Range.rangeC 5 0 (-2) = some [5, 3, 1] ∧ Range.rangeC 1 0 0 = some [] := by decide
+example : Range.rangeCOld 1 0 0 = none := Range.rangeCOld_aborts
 
 /-! ### ☆ KMP (string.c kmp_init / kmp_next / kmp_seti) computes the naive definitions -/
 
